@@ -139,4 +139,28 @@ vpv_native!(c40_map_insertion_order, "C40/Value::eq + Hash, Map arm/maps with th
     let (a, b) = (Value::map(inner), Value::map(inner_rev));
     ok && a == b && c40_std_hash(&a) == c40_std_hash(&b)
 });
-vpv_replay_table!(c40_scalar_null, c40_scalar_bool, c40_scalar_int, c40_scalar_float, c40_scalar_timestamp, c40_scalar_duration, c40_scalar_str, c40_cross_kind, c40_cross_kind_str, c40_float_special, c40_array_float2, c40_array_len, c40_map_insertion_order);
+
+// maps with DIFFERENT key sets: == must still be an equivalence (symmetric, transitive) and agree with the hash
+vpv_native!(c40_map_equivalence, "C40/Value::eq + Hash, Map arm/== is symmetric and transitive and equal maps hash equally over maps with different key sets (native enumeration: 64 maps = keys a,b,c each absent / 1 / null / NaN; all pairs and triples)", {
+    let choices: [Option<Value>; 4] = [None, Some(Value::Int(1)), Some(Value::Null), Some(Value::Float(f64::NAN))];
+    let keys = ["a", "b", "c"];
+    let mut maps: Vec<(String, Value)> = Vec::new();
+    for code in 0..64usize {
+        let mut m = FxIndexMap::default(); let mut d = Vec::new(); let mut c = code;
+        for k in keys { if let Some(v) = &choices[c % 4] { m.insert(Arc::<str>::from(k), v.clone()); d.push(format!("{}: {:?}", k, v)); } c /= 4; }
+        maps.push((format!("{{{}}}", d.join(", ")), Value::map(m)));
+    }
+    let mut ok = true; let mut shown = 0;
+    for (da, a) in &maps { for (db, b) in &maps {
+        let good = vpv_enum_try(|| format!("a = {}  b = {}", da, db), || {
+            let (ab, ba) = (a == b, b == a);
+            if ab != ba { println!("  a == b is {}, b == a is {}", ab, ba); }
+            ab == ba && (!ab || c40_std_hash(a) == c40_std_hash(b))
+        });
+        if !good { ok = false; shown += 1; if shown >= 3 { return false; } }
+    } }
+    for (da, a) in &maps { for (db, b) in &maps { if a == b { for (dc, c) in &maps { if b == c && a != c {
+        println!("  input a = {}  b = {}  c = {} -> a == b and b == c but a != c", da, db, dc); return false; } } } } }
+    ok
+});
+vpv_replay_table!(c40_scalar_null, c40_scalar_bool, c40_scalar_int, c40_scalar_float, c40_scalar_timestamp, c40_scalar_duration, c40_scalar_str, c40_cross_kind, c40_cross_kind_str, c40_float_special, c40_array_float2, c40_array_len, c40_map_insertion_order, c40_map_equivalence);
